@@ -26,6 +26,14 @@ CLAIMED = {
     "C06": ("Partial. REFUTED (D4: a value-producing operation whose value is unused at top level is hoisted to the front), with the model's "
             "own bookkeeping (leftover count) as explanation; positive instances for postfix, statement-expression and ?: arm. Per run: K2 on "
             "hybrid placements; differential oracle inside the guard.", "model + refutation witnesses; K2; differential oracle"),
+    "C07": ("Partial (architectural table and plugin contract are trusted, T4). Theorem C07_operand_binding: for EVERY ISA operand spelling of the finite grammar (4 classes x 17 "
+            "access-letter forms, .new forms, N registers) and 18 aliases with and without _NEW, the compiler model binds the spelling to the architectural (slot letter, class, "
+            ".new flag, signedness, width) of sem/CSem.v (vm_compute over the complete finite list); immediates signed exactly for r R s S. Per run: K2 + differential + sort oracle "
+            "on every spelling as read, written and read-after-write, loads/stores of every width/sign, jumps, PC alias.", "finite-domain theorem by vm_compute + K2 + differential oracle"),
+    "C08": ("Partial. REFUTED (D5: on a fresh compiler `clo32(a) + clo32(b)` clobbers the live h_tmp0 - and the same program is translated correctly with another counter value, so "
+            "the result depends on history; D15: early `return` does not end the callee, witness sub-routine with custom tables). Per run: K2 + differential oracle (callee executed "
+            "under its C source, IL by substitution of the real compiled body) over argument/return conversions of all 8 types, 1-4 calls per expression, nested calls; sub-routines "
+            "registered through add_sub_routine inside histories.", "model + refutation witnesses; K2; differential oracle with real callee bodies"),
     "C09": ("Partial. REFUTED (D6 literal comparison / arithmetic folding / typing, D8 dead arm removes a live declaration); the literal typing "
             "of the repaired model is PROVED equal to C11 6.4.4.1 for all values and spellings. Per run: K2 + differential oracle + wf_body on "
             "literal spellings x suffixes x operators and dead-arm programs.", "model + theorems + refutation witnesses; K2; differential + wf oracle"),
